@@ -50,16 +50,144 @@ func c14r6(p *model.Prog, r *report.Result) {
 		confMemo[fn] = res
 		return res
 	}
-	// confinedBy: in is dominated by the true edge of conf(..., x, ...) where x satisfies same()
-	confinedBy := func(in ssa.Instruction, same func(arg ssa.Value) bool) bool {
+	// wrapperOf: fn is a bool function that returns true only when a confinement test it calls
+	// returned true (every return value is constant false, the test's result, or a merge of those)
+	// and the tested path is fn's k-th parameter or the field f of it.
+	type wrapInfo struct {
+		k  int
+		f  *types.Var
+		ok bool
+	}
+	wrapMemo := map[*ssa.Function]wrapInfo{}
+	wrapperOf := func(fn *ssa.Function) wrapInfo {
+		if w, ok := wrapMemo[fn]; ok {
+			return w
+		}
+		w := wrapInfo{}
+		wrapMemo[fn] = w
+		if fn == nil || fn.Blocks == nil || !isConf(fn, 0) {
+			return w
+		}
+		var inner *ssa.Call
+		n := 0
+		model.EachInstr(fn, func(in ssa.Instruction) {
+			if c, ok := in.(*ssa.Call); ok && isConf(c.Call.StaticCallee(), 1) {
+				inner = c
+				n++
+			}
+		})
+		if n != 1 {
+			return w
+		}
+		var okVal func(v ssa.Value, d int) bool
+		okVal = func(v ssa.Value, d int) bool {
+			if d > 6 {
+				return false
+			}
+			if v == ssa.Value(inner) {
+				return true
+			}
+			if b, isC := model.ConstBool(v); isC {
+				return !b
+			}
+			if ph, isPhi := v.(*ssa.Phi); isPhi {
+				for _, e := range ph.Edges {
+					if !okVal(e, d+1) {
+						return false
+					}
+				}
+				return true
+			}
+			return false
+		}
+		for _, ret := range model.ReturnsOf(fn) {
+			rv := model.ReturnValues(ret)
+			if len(rv) != 1 || !okVal(rv[0], 0) {
+				return w
+			}
+		}
+		for _, a := range inner.Call.Args {
+			a = model.Unwrap(a)
+			var base ssa.Value
+			var f *types.Var
+			switch x := a.(type) {
+			case *ssa.Parameter:
+				base = x
+			case *ssa.Field:
+				base, f = x.X, model.FieldOf(x)
+			case *ssa.UnOp:
+				if fa, isFA := x.X.(*ssa.FieldAddr); isFA && x.Op == token.MUL {
+					base, f = fa.X, model.FieldOf(fa)
+				}
+			}
+			if base == nil {
+				continue
+			}
+			prm, isP := base.(*ssa.Parameter)
+			if !isP {
+				if pc := paramCell(base); pc != nil {
+					prm, isP = pc, true
+				} else if al, isAl := base.(*ssa.Alloc); isAl {
+					// a by-value struct parameter spilled to a local cell
+					for _, ref := range *al.Referrers() {
+						if st, isSt := ref.(*ssa.Store); isSt && st.Addr == ssa.Value(al) {
+							if q, isQ := st.Val.(*ssa.Parameter); isQ {
+								prm, isP = q, true
+							}
+						}
+					}
+				}
+			}
+			if !isP {
+				continue
+			}
+			for k, q := range fn.Params {
+				if q == prm && (f != nil || a == ssa.Value(prm)) {
+					w = wrapInfo{k: k, f: f, ok: true}
+				}
+			}
+		}
+		wrapMemo[fn] = w
+		return w
+	}
+	// fieldOfArg: path is the field f of the struct passed as arg (by value: both are loads from
+	// the same cell; by pointer: path is loaded through arg)
+	fieldOfArg := func(path, arg ssa.Value, f *types.Var) bool {
+		ld, ok := model.Unwrap(path).(*ssa.UnOp)
+		if !ok || ld.Op != token.MUL {
+			return false
+		}
+		fa, ok := ld.X.(*ssa.FieldAddr)
+		if !ok || model.FieldOf(fa) != f {
+			return false
+		}
+		if fa.X == arg || sameLoad(fa.X, arg, 0) {
+			return true
+		}
+		if al, ok := arg.(*ssa.UnOp); ok && al.Op == token.MUL && (al.X == fa.X || sameLoad(al.X, fa.X, 0)) {
+			return true
+		}
+		return false
+	}
+	// confinedBy: in is dominated by the true edge of conf(..., x, ...) where x satisfies same(),
+	// or of a wrapper of such a test given the struct whose field `path` is
+	confinedBy := func(in ssa.Instruction, path ssa.Value, same func(arg ssa.Value) bool) bool {
 		return model.GuardedBy(in, func(c ssa.Value, pol bool) bool {
 			c, pol = model.StripNot(c, pol)
 			call, ok := c.(*ssa.Call)
 			if !ok || !pol {
 				return false
 			}
-			if !isConf(call.Call.StaticCallee(), 0) {
+			ce := call.Call.StaticCallee()
+			if !isConf(ce, 0) {
 				return false
+			}
+			if w := wrapperOf(ce); w.ok && w.k < len(call.Call.Args) {
+				a := call.Call.Args[w.k]
+				if w.f == nil {
+					return same(a)
+				}
+				return path != nil && fieldOfArg(path, a, w.f)
 			}
 			for _, a := range call.Call.Args {
 				if same(a) {
@@ -71,9 +199,6 @@ func c14r6(p *model.Prog, r *report.Result) {
 	}
 
 	// ---- the confinement tests themselves reject "..", "../x" (and the root itself)
-	for fn, is := range map[*ssa.Function]bool{} {
-		_, _ = fn, is
-	}
 	checkConf := func(fn *ssa.Function) {
 		var rel ssa.Value
 		model.EachInstr(fn, func(in ssa.Instruction) {
@@ -121,7 +246,7 @@ func c14r6(p *model.Prog, r *report.Result) {
 			nRead++
 			args := ci.Common().Args
 			path := args[len(args)-1]
-			ok := confinedBy(ci, func(a ssa.Value) bool { return a == path || sameLoad(a, path, 0) })
+			ok := confinedBy(ci, path, func(a ssa.Value) bool { return a == path || sameLoad(a, path, 0) })
 			r.Check(ok, "C14.R6", fkey(fn, "read", "inside-root"), p.InstrPos(ci), "file read only behind the confinement test of the same path", "the HLS file server reads a path built from the request without testing that it lies below the configured root: a request path with '..' that the HTTP mux does not clean (CONNECT), or a segment name like '..-1-2.ts', returns files outside the root")
 		}
 	}
@@ -142,7 +267,7 @@ func c14r6(p *model.Prog, r *report.Result) {
 		}
 		nNew++
 		name := ed.Site.Common().Args[0]
-		ok := confinedBy(ed.Site, func(a ssa.Value) bool {
+		ok := confinedBy(ed.Site, nil, func(a ssa.Value) bool {
 			return model.DependsOn(a, func(v ssa.Value) bool { return v == name || sameLoad(v, name, 0) })
 		})
 		r.Check(ok, "C14.R6", fkey(fn, "write", "muxer-dir-inside-root"), p.InstrPos(ed.Site), "muxer created only for a stream name whose directory lies below the root", "an HLS muxer is created for a peer-chosen stream name without testing that <root>/<name> lies below the root: a stream named '..' makes lal write playlists and segments into the parent of the HLS directory (and the end-of-stream cleanup removes that parent)")
@@ -189,7 +314,7 @@ func c14r6(p *model.Prog, r *report.Result) {
 			// the RTMP publish name is taken verbatim as the stream name and may contain '/' and
 			// '..': the shape of the file name alone does not confine it, the path itself must pass
 			// a confinement test
-			confined := confinedBy(ed.Site, func(a ssa.Value) bool { return a == path || sameLoad(a, path, 0) })
+			confined := confinedBy(ed.Site, path, func(a ssa.Value) bool { return a == path || sameLoad(a, path, 0) })
 			why := recordPathShape(path)
 			r.Check(confined && why == "", "C14.R6", fkey(fn, "record", w.typ), p.InstrPos(ed.Site), "Join(<configured dir>, Sprintf(..)) opened only behind the confinement test of the same path", "the recording file is opened without testing that its path lies below the configured directory ("+why+"): rtmp publish('../../x') makes the stream name '../../x' and the recording is created two levels above the recording directory")
 		}
